@@ -43,6 +43,8 @@ def run(rep, tier):
     rep.rule("R-C11-fnaddr", "get_sandbox_function_address wraps exactly the pointer looked up / given")
     backends = ["model32", "model32gi", "noop", "dylib"] if tier == "quick" else ["model32", "model32gi", "noop", "dylib", "noop_tls", "dylib_tls", "model32_trans", "noop_trans"]
     dbs = facts.load_core(backends, ["INVOKE"], thorough=(tier == "thorough"))
+    # generated signature family (tools/gen_sigs.py): arities 0..12 over every parameter / return kind, four argument wrapper forms each
+    dbs += facts.load_sigs(["model32", "noop"] if tier == "quick" else ["model32", "model32gi", "noop", "dylib"], thorough=(tier == "thorough"))
     n = {}
 
     def cnt(k):
@@ -94,7 +96,7 @@ def run(rep, tier):
                           "cache '%s' is filled from %s: the address returned for a function depends on which lookup ran first" % (mapname, " and ".join(names)), fs[0][1], label)
         else:
             rep.ok("R-C11-cache", SB + "::lookup_symbol / internal_lookup_symbol [shared cache]", "cache '%s' has the single filler %s" % (mapname, names[0]), label)
-    floors = {"invoke": 20, "byname": 4, "cache": 4, "backend": 10, "fnaddr": 3}
+    floors = {"invoke": 100, "byname": 4, "cache": 4, "backend": 25, "fnaddr": 3}
     for k, v in floors.items():
         rep.require(n.get(k, 0) >= v, "only %d instances for rule group '%s' (floor %d)" % (n.get(k, 0), k, v))
     rep.extra["instances"] = n
